@@ -1,14 +1,14 @@
 SPECIFICATION Spec
 CONSTANTS
   NQ = 2
-  NG = 2
+  NG = 1
   GpuOf <- MCGpuOf1
   BufsOf <- MCBufsOf
-  Home <- MCHome2
+  Home <- MCHome1
   Progs <- MCProgs
-  CtxOf <- MCCtx1
-  MaxOps1 = 2
+  CtxOf <- MCCtxQ
+  MaxOps1 = 3
   MaxOps2 = 2
-  Deviations = {"OwnGPUOnly"}
+  Deviations = {}
 INVARIANTS TypeOK Observes D2HFresh Isolation
 CHECK_DEADLOCK FALSE
